@@ -78,7 +78,7 @@ const GARBAGE: &[&str] = &["", "debug on", "stop", "ponderhit", "register later"
 
 fn prefix_traffic(s: &mut Sess, rng: &mut Rng, roots: &[History], probe: &Probe, n: usize, acc: &mut Acc) -> bool {
     for _ in 0..n {
-        match rng.below(13) {
+        match rng.below(14) {
             0 => {
                 s.eng.send("ucinewgame");
             }
@@ -93,6 +93,31 @@ fn prefix_traffic(s: &mut Sess, rng: &mut Rng, roots: &[History], probe: &Probe,
             }
             3 => {
                 s.eng.send(*rng.pick(GARBAGE));
+            }
+            7 => {
+                // a go whose line carries words of the UCI vocabulary the engine does not know
+                // (searchmoves with legal and illegal moves, depth, nodes, mate, movetime), on the
+                // probed game, on another game or on a finished game (mate / stalemate)
+                let h = match rng.below(3) {
+                    0 => probe.hist.clone(),
+                    1 => roots[rng.below(roots.len() as u64) as usize].clone(),
+                    _ => {
+                        let p = Pos::parse_fen(*rng.pick(&["7k/5Q2/6K1/8/8/8/8/8 b - -", "R5k1/5ppp/8/8/8/8/8/6K1 b - -", "rnb1kbnr/pppp1ppp/8/4p3/6Pq/5P2/PPPPP2P/RNBQKBNR w KQkq -", "k7/2Q5/1K6/8/8/8/8/8 b - -"])).unwrap();
+                        History { start: p.clone(), moves: vec![], end: p }
+                    }
+                };
+                s.position(&h);
+                let extra = *rng.pick(&["searchmoves e2e4", "searchmoves e2e5", "searchmoves h2h4 a7a5", "searchmoves a1a1", "depth 2", "nodes 100", "mate 1", "movetime 10", "searchmoves"]);
+                let args = if rng.chance(1, 2) { extra.to_string() } else { format!("{} {}", timed_args(h.end.stm, 3 + rng.below(12) as u32), extra) };
+                let mut g = s.go(&args, WATCHDOG);
+                if g.bestmove.is_none() {
+                    return false;
+                }
+                s.settle(&mut g, WATCHDOG);
+                acc.feature("prefix_go_with_unknown_uci_words");
+                if rng.chance(1, 3) {
+                    s.eng.send("ucinewgame");
+                }
             }
             4 | 5 | 6 => {
                 // a game related to the probe (the probed game itself, a truncation of it, or a
